@@ -43,7 +43,7 @@ FORMATS = ["unified", "json", "summary", "standard"]
 
 def case_key(case):
     parts = [n + ":" + L.sha(L.dec(c)) for n, c in sorted(case["files"].items())]
-    return L.sha("|".join(parts) + "|" + " ".join(L.flags_for(case["cfg"])))
+    return L.sha("|".join(parts) + "|" + " ".join(L.flags_for(case["cfg"])) + "|" + str(case.get("stdin", "")))
 
 
 def run_case(case, ref, timeout=120):
@@ -73,15 +73,24 @@ def run_case(case, ref, timeout=120):
         for n in names:
             s.write(n, files[n][0])
         for fmt in case.get("formats", FORMATS):
-            args = ["--check", "--output-format", fmt] + L.flags_for(case["cfg"]) + case.get("extra_args", []) + ["--"] + order
-            run = clilib.run_cli(args, s.root, s.env(), timeout=timeout)
+            judged = files
+            if case.get("stdin"):
+                # the same text through stdin: the diff must still lead from what was read to the formatted text
+                o0, f0 = files[names[0]]
+                args = ["--check", "--output-format", fmt] + L.flags_for(case["cfg"]) + case.get("extra_args", []) \
+                    + (["--stdin-filepath", names[0]] if case["stdin"] == "filepath" else []) + ["-"]
+                run = clilib.run_cli(args, s.root, s.env(), stdin=o0, timeout=timeout)
+                judged = {"stdin": (o0, f0)}
+            else:
+                args = ["--check", "--output-format", fmt] + L.flags_for(case["cfg"]) + case.get("extra_args", []) + ["--"] + order
+                run = clilib.run_cli(args, s.root, s.env(), timeout=timeout)
             if run.timed_out:
                 res["inconclusive"] += 1
                 res["notes"].append("timeout")
                 continue
             res["evaluations"] += 1
             local = {}
-            probs = L.judge_check_output(fmt, run.out, files, local)
+            probs = L.judge_check_output(fmt, run.out, judged, local)
             for k, v in local.items():
                 counters[k] = counters.get(k, 0) + v
             exp_rc = 1 if differs else 0
@@ -183,6 +192,12 @@ def pinned_special():
     cs.append(mk("special:two-far-hunks", {"f.lua": b"local   a = 1\n" + mid + b"local   z = 1"}))
     # names in sub directories and with blanks
     cs.append(mk("special:names", {"sub/x y.lua": b"local   a = 1\n", "sub/ok.lua": b"local a = 1\n", "z.lua": b"return   1\n"}))
+    # through stdin (with and without --stdin-filepath)
+    for kind in ("plain", "filepath"):
+        cs.append(mk(f"special:stdin-{kind}", {"f.lua": b"local   x = 1\nlocal y   = 2\nreturn   x+y\n"}, stdin=kind))
+        cs.append(mk(f"special:stdin-{kind}:no-final-newline", {"f.lua": b"local   x = 1\nreturn   x"}, stdin=kind))
+        cs.append(mk(f"special:stdin-{kind}:formatted", {"f.lua": b"local x = 1\n"}, stdin=kind))
+        cs.append(mk(f"special:stdin-{kind}:crlf", {"f.lua": b"local   x = 1\r\nreturn   x\r\n"}, {"line_endings": "Windows"}, stdin=kind))
     # names that need care when printed: backslash (not a separator here), quote (JSON escaping), tab, non-ASCII
     cs.append(mk("special:names-odd", {"sub/back\\slash.lua": b"local   a = 1\n", "gen\\out/mod.lua": b"local   b = 1\n", "q\"uote.lua": b"local   c = 1\n",
                                        "tab\tname.lua": b"local   d = 1\n", "\u00fcn\u00ef/\u00e7\u00e9.lua": b"local   e = 1\n", "ok.lua": b"local f = 1\n"}))
@@ -209,6 +224,8 @@ def build_workload(tier, seed, ref):
         for w in widths:
             fm = FORMATS if (w == 120 or not quick) else ["unified", "json"]
             cases.append(mk("corpus", {"f.lua": text.encode("utf-8")}, {"column_width": w} if w != 120 else {}, formats=fm, src=name))
+            if len(cases) % 4 == 0:
+                cases.append(mk("corpus:stdin", {"f.lua": text.encode("utf-8")}, {"column_width": w} if w != 120 else {}, formats=fm, src=name, stdin="plain"))
     for name, text in corpus:
         if "sort-requires" in name:
             cases.append(mk("corpus+sort-requires", {"f.lua": text.encode("utf-8")}, {"sort_requires": True}, src=name))
